@@ -38,12 +38,18 @@ ASSUMPTIONS = [
     "HartleyOperator uses the default 'non_canonical_hartley' convention Re(FFT)+Im(FFT) = cos - sin",
     "Nufft/Gridder: TIMES(x)[j] = Re sum_k x_k exp(+2 pi i pos_k . dist * (j - n//2)); tolerance max(1e-9, 100*eps)",
     "LOSResponse: pixel i covers [(i-1/2)d, (i+1/2)d]; weights are float32 and the traversal is shortened by 1e-7 "
-    "at both ends: tolerance 2e-6 * max(1, LOS length); generated end points never lie on cell boundaries",
+    "at both ends: tolerance 2e-6 * max(1, LOS length); generated end points never lie on cell boundaries; with "
+    "sigmas the reference uses the same per-cell mid-point rule for P(length > distance) as documented in the code",
     "FuncConvolutionOperator on RGSpace: periodic convolution with func(|x-y|) normalised to unit sum (this is what "
     "the library's own test against HarmonicSmoothingOperator asserts); on HPSpace/GLSpace only consistency "
     "(adjoint, linearity, domains) is checked, the quadrature-limited kernel is not",
-    "SplitOperator: slices that refer to a space are generated for one-dimensional spaces only (the implementation "
-    "indexes array axes); at most one list/bool selection per key",
+    "SplitOperator (docstring: 'tuple of integers or None'; slices/lists/bool masks are accepted by the code): "
+    "entries that refer to a space are generated for one-dimensional spaces only (the implementation indexes "
+    "array axes); a key uses ints/None/slices, or None/slices and at most one list/bool mask (several advanced "
+    "indices would be combined element-wise by numpy)",
+    "weighting (ContractionOperator power != 0, IntegrationOperator, WeightApplier, DOFDistributor partner, "
+    "FuncConvolutionOperator's mean removal) is only generated over structured spaces: UnstructuredDomain has no volume",
+    "SqueezeOperator(aggressive=True): a multi-axis RGSpace/UnstructuredDomain keeps at least one axis longer than 1",
     "LinearEinsum: every index of the free field occurs in the output or in a fixed field (numpy.einsum cannot "
     "express the adjoint otherwise); no repeated index inside one operand",
     "inverse modes are compared with tolerance scaled by max|A^-1|; SandwichOperators with cond > 1e6 are discarded",
@@ -53,7 +59,8 @@ ASSUMPTIONS = [
 _NT = "non-trivial = "
 SUBS = [
     Sub("contraction", T.contraction_check, strategy=T.contraction_recipes, quick=160, thorough=5000, shards=2,
-        rule=_NT + ">=2 spaces or a multi-axis space or power != 0 (Contraction/IntegrationOperator)"),
+        rule=_NT + ">=2 spaces or a multi-axis space or power != 0 (Contraction/IntegrationOperator, "
+                   "Operator.sum/.integrate)"),
     Sub("dof_distributor", T.dof_check, strategy=T.dof_recipes, quick=120, thorough=4000, shards=2,
         rule=_NT + ">=2 spaces or multi-axis space (DOFDistributor with generated surjective dofdex)"),
     Sub("power_distributor", T.powerdist_check, strategy=T.powerdist_recipes, quick=100, thorough=3000, shards=2,
@@ -79,7 +86,8 @@ SUBS = [
     Sub("transpose", P.transpose_check, strategy=P.transpose_recipes, quick=100, thorough=3000, shards=1,
         rule=_NT + "a true permutation (TransposeOperator, all four modes)"),
     Sub("squeeze", P.squeeze_check, strategy=P.squeeze_recipes, quick=120, thorough=3000, shards=1,
-        rule=_NT + ">=2 spaces (SqueezeOperator plain/aggressive, all four modes; adjoint = unsqueeze)"),
+        rule=_NT + ">=2 spaces (SqueezeOperator plain/aggressive and Operator.squeeze, all four modes; the adjoint "
+                   "is the un-squeeze)"),
     Sub("geometry_remover", P.georem_check, strategy=P.georem_recipes, quick=60, thorough=2000, shards=1,
         rule=_NT + ">=2 spaces or multi-axis space (GeometryRemover)"),
     Sub("adapters", P.adapter_check, strategy=P.adapter_recipes, quick=200, thorough=5000, shards=2,
@@ -113,7 +121,7 @@ SUBS = [
     Sub("linear_interpolator", M.interp_check, strategy=M.interp_recipes, quick=100, thorough=3000, shards=1,
         rule=_NT + ">=2 dimensions or points outside the grid (LinearInterpolator)"),
     Sub("los_response", M.los_check, strategy=M.los_recipes, quick=100, thorough=3000, shards=1,
-        rule=_NT + ">=2 dimensions (LOSResponse, sigmas=None)"),
+        rule=_NT + ">=2 dimensions (LOSResponse, with and without sigmas/truncation)"),
     Sub("nufft_gridder", M.nufft_check, strategy=M.nufft_recipes, quick=100, thorough=3000, shards=1,
         rule=_NT + ">=2 dimensions or explicit eps (Nufft, Gridder)"),
     Sub("sandwich", M.sandwich_check, strategy=M.sandwich_recipes, quick=200, thorough=6000, shards=2,
